@@ -36,18 +36,21 @@ fn chk(c: &mut Ctx, attrs: &[(usize, usize, String)], rs: usize, re: usize, auth
         }
     }
 }
-/// the offset table: entry i must be where line i's text sits in the content (input: the content, escaped)
+/// the offset tables (cherry-pick replay and rebase replay): entry i must be where line i's text sits in the content
 fn chk_offsets(c: &mut Ctx, content: &str) {
-    c.evaluated += 1;
-    let input = format!("OFFSETS|{}", content.replace('\\', "\\\\").replace('\r', "\\r").replace('\n', "\\n"));
-    let owned = content.to_string();
-    match guarded(move || { let lines: Vec<&str> = owned.lines().collect(); let n = lines.len(); let lens: Vec<String> = lines.iter().map(|l| l.to_string()).collect(); { let l2 = lines.clone(); let a = region_fs_offsets(n, lines, owned.clone()); let b = region_fs_offsets_rebase(n, l2, owned.clone()); (if a == b { a } else { vec![usize::MAX; a.len().max(1)] }, lens) } }) {
-        Err(p) => c.fail("region_fs_offsets", "safety", input, p, "no panic".into()),
-        Ok((starts, lines)) => {
-            if starts.len() != lines.len() { c.fail("region_fs_offsets", "ensures#0", input, format!("{} entries", starts.len()), format!("{} lines", lines.len())); return; }
-            for (i, l) in lines.iter().enumerate() {
-                let ok = content.as_bytes().get(starts[i]..starts[i] + l.len()).map(|b| b == l.as_bytes()).unwrap_or(false);
-                if !ok { c.fail("region_fs_offsets", "ensures#1", input, format!("line {} ({:?}) recorded at byte {}", i + 1, l, starts[i]), format!("the byte offset where that text sits: {:?}", content.find(l.as_str()))); return; }
+    for which in ["region_fs_offsets", "region_fs_offsets_rebase"] {
+        c.evaluated += 1;
+        let input = format!("OFFSETS|{}", content.replace('\\', "\\\\").replace('\r', "\\r").replace('\n', "\\n"));
+        let owned = content.to_string();
+        let rebase = which == "region_fs_offsets_rebase";
+        match guarded(move || { let lines: Vec<&str> = owned.lines().collect(); let n = lines.len(); let texts: Vec<String> = lines.iter().map(|l| l.to_string()).collect(); (if rebase { region_fs_offsets_rebase(n, lines, owned.clone()) } else { region_fs_offsets(n, lines, owned.clone()) }, texts) }) {
+            Err(p) => c.fail(which, "safety", input, p, "no panic".into()),
+            Ok((starts, lines)) => {
+                if starts.len() != lines.len() { c.fail(which, "ensures#0", input, format!("{} entries", starts.len()), format!("{} lines", lines.len())); continue; }
+                for (i, l) in lines.iter().enumerate() {
+                    let ok = content.as_bytes().get(starts[i]..starts[i] + l.len()).map(|b| b == l.as_bytes()).unwrap_or(false);
+                    if !ok { c.fail(which, "ensures#1", input.clone(), format!("line {} ({:?}) recorded at byte {}", i + 1, l, starts[i]), "the byte offset at which that line's text sits in the content".into()); break; }
+                }
             }
         }
     }
